@@ -304,6 +304,8 @@ func pickExt(r *vgen.Rand, reuse bool) (int, *net.UDPAddr) {
 }
 
 func pickState(r *vgen.Rand) layers.BFDState {
+	// No AdminDown: a session that received it stays in AdminDown and keeps transmitting at the
+	// fast rate (C16), which makes stopping the router unsafe (see runCase).
 	return vgen.Pick(r, layers.BFDStateDown, layers.BFDStateInit, layers.BFDStateUp,
-		layers.BFDStateUp, layers.BFDStateAdminDown)
+		layers.BFDStateUp)
 }
